@@ -98,7 +98,9 @@ def spec_text(case):
         if f:
             s += '/' + f
             if d:
-                s += '/' + d
+                # the direction may be spelled in any case
+                sp = (case.get('spell', 0) + j) % 4
+                s += '/' + [d, d.upper(), d.capitalize(), d][sp]
         parts.append(s)
     return ','.join(parts)
 
@@ -371,7 +373,8 @@ def strategy():
                                                     funcs_for(ts[1])),
                              st.one_of(st.none(), st.tuples(
                                  funcs_for(ts[0]), funcs_for(ts[1])))))
-    keyed_cases = st.one_of(one, one, two).flatmap(keyed)
+    keyed_cases = st.one_of(one, one, two).flatmap(keyed).flatmap(
+        lambda c: st.integers(0, 3).map(lambda sp: dict(c, spell=sp)))
     item = st.fixed_dictionaries(dict(
         kind=st.sampled_from(['int', 'str', 'pair']),
         how=st.sampled_from(['empty', 'sequence-item', 'empty=']),
